@@ -969,6 +969,7 @@ func registerFsimKinds(c *core.Ctx) {
 		}
 		return line, runWgetImpl(name, haveName, sha, variant, body)
 	}})
+	registerFsimMoreKinds(c)
 }
 
 // ---------------------------------------------------------------------------------------------------------------
@@ -1093,6 +1094,9 @@ type e2eFile struct {
 	Chunk   int    // download: ChunkSize
 	Variant string // wget: server variant
 	Tamper  string // "", or what a man inside the tunnel alters
+	// wget (fsimx_more.go): what the server really sends (nil: Data); Length / Checksum left unannounced
+	Serve        []byte
+	NoLen, NoSum bool
 }
 
 type e2eRun struct {
@@ -1108,6 +1112,8 @@ type e2eRun struct {
 	// encrypted 65535-byte service info does not fit); otherwise both are raised so that the modules can be exercised
 	// at the largest MTU
 	DefaultHTTP bool
+	ShortReads  *srPlan // uploads: the device's file system answers Read by this plan (fsimx_more.go)
+	Expect      string  // "": TO2 succeeds; otherwise see e2eExpectedFailure
 }
 
 func (r e2eRun) label() string {
@@ -1258,7 +1264,7 @@ func runE2E(c *core.Ctx, fx *e2eFixture, r e2eRun) {
 	}
 	fx.mux = map[string]http.Handler{}
 	for _, f := range r.Wgets {
-		fx.mux[f.Name] = wgetHandler(f.Variant, f.Data)
+		fx.mux[f.Name] = wgetHandler(f.Variant, f.served())
 	}
 	tampered := false
 	fx.e.OwnerMTU = r.OwnMTU
@@ -1280,7 +1286,7 @@ func runE2E(c *core.Ctx, fx *e2eFixture, r e2eRun) {
 			}
 			for _, f := range r.Wgets {
 				u, _ := url.Parse(fx.srv.URL + "/" + f.Name + "/f")
-				var m serviceinfo.OwnerModule = &fsim.WgetCommand{Name: f.Name, URL: u, Length: int64(len(f.Data)), Checksum: fsimSha384(f.Data)}
+				var m serviceinfo.OwnerModule = &fsim.WgetCommand{Name: f.Name, URL: u, Length: f.annLen(), Checksum: f.annSum()}
 				if f.Tamper != "" {
 					m = &tamperOwner{OwnerModule: m, what: f.Tamper, hit: &tampered}
 				}
@@ -1313,7 +1319,7 @@ func runE2E(c *core.Ctx, fx *e2eFixture, r e2eRun) {
 		}
 		cfg := dev.TO2Config(env.DefaultKex(fx.e.Spec), kex.A128GcmCipher)
 		cfg.MaxServiceInfoSizeReceive = r.DevMTU
-		var up serviceinfo.DeviceModule = &fsim.Upload{FS: os.DirFS(dirs["devsrc"])}
+		var up serviceinfo.DeviceModule = &fsim.Upload{FS: r.uploadFS(os.DirFS(dirs["devsrc"]))}
 		for _, f := range r.Uploads {
 			if f.Tamper != "" {
 				up = &tamperDevice{DeviceModule: up, what: f.Tamper, hit: &tampered}
@@ -1350,6 +1356,10 @@ func runE2E(c *core.Ctx, fx *e2eFixture, r e2eRun) {
 	c.Count("e2e_rounds", fsimBucket(rounds))
 	if panicked != "" {
 		c.Fail("panic@fsim:e2e:"+r.Kind, panicked, "e2e", p, o)
+	}
+	if r.Expect != "" {
+		e2eExpectedFailure(c, r, p, o, terr, ctx.Err() != nil, dirs)
+		return
 	}
 	anyTamper := false
 	for _, fs := range [][]e2eFile{r.Downloads, r.Uploads, r.Wgets} {
@@ -1450,7 +1460,7 @@ func wgetDeliveredOr(f e2eFile) ([]byte, bool) {
 	if f.Variant == "" {
 		return f.Data, true
 	}
-	return wgetDelivered(f.Variant, f.Data)
+	return wgetDelivered(f.Variant, f.served())
 }
 
 func fsimFirstDiff(a, b []byte) int {
@@ -1506,7 +1516,7 @@ func RunC17(c *core.Ctx) {
 		"in both directions, sizes around chunk and message-room multiples, plus runs in which a wrapper alters data/digest/length inside the tunnel; monitors only. " +
 		"non-trivial = at least one data message or an HTTP body; distinct = distinct case line"
 	c.Trivial = func(o core.Obs) bool {
-		return !strings.Contains(o.Line, "(data ") && !strings.HasPrefix(o.Line, "fsim.wget")
+		return !strings.Contains(o.Line, "(data ") && !strings.HasPrefix(o.Line, "fsim.wget") && !strings.HasPrefix(o.Line, "fsim.upload.shortreads")
 	}
 	t0 := time.Now()
 	quick := c.Quick()
@@ -1688,6 +1698,7 @@ func RunC17(c *core.Ctx) {
 			doWget(size, "right", "stream", n, false)
 		}
 	}
+	runC17More(c) // short-read uploads, served length against announced length (fsimx_more.go)
 	part1 := c.Rep.Evaluations
 	c.Note("part 1: %d evaluations (%d wget) in %.1fs", part1, nW, time.Since(t0).Seconds())
 
@@ -1843,6 +1854,7 @@ func RunC17(c *core.Ctx) {
 	lu2 := tam("upload", "len-up", 3000, "")
 	lu2.Timeout = 4 * time.Second
 	runs = append(runs, lu, lu2)
+	runs = append(runs, fsimMoreE2E(c, file)...)
 
 	for _, r := range runs {
 		runE2E(c, fx, r)
